@@ -115,11 +115,22 @@ type eng struct {
 	labels map[string]bool
 
 	rlReg, rlRem, svReg, svRem int // number of accepted requests so far = next request id
+	persist                    bool
 }
 
-func newEng(ctx *ev.Ctx, n int, mbcv uint32, own int) *eng {
+// engOpts: genesis MaxBlockChangeView, ownership layout (ownerOf), genesis index layout (genesisIndex) and
+// whether every block boundary persists the block overlay into the store like the ledger does.
+type engOpts struct {
+	mbcv    uint32
+	own     int
+	idx     int
+	persist bool
+}
+
+func newEng(ctx *ev.Ctx, n int, o engOpts) *eng {
 	e := &eng{ctx: ctx, n: n, byAddr: map[common.Address]int{}, labels: map[string]bool{}}
-	e.w = newWorld(n, mbcv, own)
+	e.w = newWorld(n, o.mbcv, o.own, o.idx)
+	e.persist = o.persist
 	for i := 0; i < n+spareNodes; i++ {
 		e.actors = append(e.actors, world.Acct(i))
 	}
@@ -165,8 +176,71 @@ func ownerOf(i, own int) *account.Account {
 	return world.Acct(i)
 }
 
-func newWorld(n int, mbcv uint32, own int) *world.World {
-	if os.Getenv("PGOV_FRESH_WORLD") != "" && mod(own, 5) == 0 {
+// genesisIndex is the peer index of genesis validator i under index layout idx: 0 the conventional i+1,
+// 1 offset by one (2..n+1), 2 offset by three, 3 a gap before the last (1..n-1, n+2), 4 a gap in the
+// middle (1, 3, 4, ..), 5 descending with an offset (n+1 .. 2), 6 large (1000+7i).
+func genesisIndex(i, n, idx int) uint32 {
+	switch mod(idx, 7) {
+	case 1:
+		return uint32(i + 2)
+	case 2:
+		return uint32(i + 4)
+	case 3:
+		if i == n-1 {
+			return uint32(n + 2)
+		}
+	case 4:
+		if i > 0 {
+			return uint32(i + 2)
+		}
+	case 5:
+		return uint32(n + 1 - i)
+	case 6:
+		return uint32(1000 + 7*i)
+	}
+	return uint32(i + 1)
+}
+
+// persistBlock ends the current block the way the ledger (and world.Persist) does: the block overlay is
+// written to the backing store, then an empty overlay and transaction cache continue over it. Same effect
+// as world.Persist, but the overlay object is reset instead of re-allocated (4 MiB per block otherwise).
+func (e *eng) persistBlock() {
+	w := e.w
+	w.Store.NewBatch()
+	w.Overlay.CommitTo()
+	if err := w.Store.BatchCommit(); err != nil {
+		panic("pgov: persist: " + err.Error())
+	}
+	w.Overlay.Reset()
+	w.Cache.Reset()
+	storeDirty = true
+}
+
+var storeDirty bool // the shared store holds persisted state of the previous case
+
+func clearStore(st *leveldbstore.LevelDBStore) {
+	it := st.NewIterator(nil)
+	var keys [][]byte
+	for ok := it.First(); ok; ok = it.Next() {
+		keys = append(keys, append([]byte(nil), it.Key()...))
+	}
+	it.Release()
+	st.NewBatch()
+	for _, k := range keys {
+		st.BatchDelete(k)
+	}
+	if err := st.BatchCommit(); err != nil {
+		panic("pgov: clearing the store: " + err.Error())
+	}
+	if it2 := st.NewIterator(nil); it2.First() {
+		panic("pgov: store not empty after clearing")
+	} else {
+		it2.Release()
+	}
+}
+
+func newWorld(n int, mbcv uint32, own int, idx int) *world.World {
+	if os.Getenv("PGOV_FRESH_WORLD") != "" && mod(own, 5) == 0 && mod(idx, 7) == 0 {
 		return world.New(n, world.Opts{MaxBlockChangeView: mbcv})
 	}
 	world.ResetGlobals(0)
@@ -180,6 +254,10 @@ func newWorld(n int, mbcv uint32, own int) *world.World {
 		}
 		sharedStore, sharedOverlay = st, overlaydb.NewOverlayDB(st)
 	}
+	if storeDirty {
+		clearStore(sharedStore)
+		storeDirty = false
+	}
 	sharedOverlay.Reset()
 	w := &world.World{Store: sharedStore, Overlay: sharedOverlay, Time: 1600000000,
 		ChainID: config.GetChainIdByNetId(config.DefConfig.P2PNode.NetworkId)}
@@ -189,6 +267,7 @@ func newWorld(n int, mbcv uint32, own int) *world.World {
 	cfg := world.VBFTConfigFor(w.Validators, mbcv)
 	for i := range cfg.Peers { // the owner wallet is free in the genesis config: not tied to the peer public key
 		cfg.Peers[i].Address = ownerOf(i, own).Address.ToBase58()
+		cfg.Peers[i].Index = genesisIndex(i, n, idx) // indices only have to be distinct and > 0
 	}
 	cfg.Serialization(sink)
 	if r := w.Invoke(utils.NodeManagerContractAddress, "initConfig", sink.Bytes(), nil); r.Err != nil {
@@ -603,6 +682,9 @@ func (e *eng) exec(op gop) stepRes {
 	case kNext:
 		steps := []int{1, 1, 1, 2, 3, 7}[mod(op.C, 6)]
 		for i := 0; i < steps; i++ {
+			if e.persist {
+				e.persistBlock()
+			}
 			e.w.NextBlock()
 		}
 		return sr
@@ -908,6 +990,20 @@ func genPoolOp(t *rapid.T, n int) gop {
 		op.C = rapid.IntRange(0, 5).Draw(t, "blocks")
 	}
 	return op
+}
+
+// sprinkleNext inserts block boundaries between the ops of a history (about one op in three is
+// followed by one), so that requests, partial rounds and effects land in different blocks and -
+// with persisted blocks - later deletes shadow values that are already in the store.
+func sprinkleNext(t *rapid.T, ops []gop) []gop {
+	out := make([]gop, 0, len(ops)+len(ops)/3+1)
+	for _, o := range ops {
+		out = append(out, o)
+		if o.K != kNext && rapid.IntRange(0, 2).Draw(t, "blockBoundary") == 0 {
+			out = append(out, gop{K: kNext})
+		}
+	}
+	return out
 }
 
 func short(s string) string {
